@@ -233,7 +233,7 @@ impl Prop for Lww {
         "lww"
     }
     fn cases(&self, tier: Tier) -> u64 {
-        tier.pick(750_000, 12_000_000)
+        tier.pick(750_000, 4_000_000)
     }
     fn strategy(&self, tier: Tier) -> BoxedStrategy<Case> {
         let max_steps = tier.pick(26, 44);
